@@ -52,7 +52,7 @@ class AuthPlan(object):
     """What the device does during the handshake."""
 
     def __init__(self, require=False, verify=None, accept_pubkey=True, pubkey_delay=0.0, bad_challenge_at=None,
-                 strays=(), challenge_arg0=wire.AUTH_TOKEN, silent_at=None):
+                 strays=(), challenge_arg0=wire.AUTH_TOKEN, silent_at=None, rechallenge_after_pubkey=0):
         self.require = require
         self.verify = verify or (lambda token, sig: False)   # True -> signature accepted
         self.accept_pubkey = accept_pubkey
@@ -61,6 +61,7 @@ class AuthPlan(object):
         self.strays = list(strays)                            # packets (cmd,arg0,arg1,payload) sent before the first answer
         self.challenge_arg0 = challenge_arg0
         self.silent_at = silent_at                            # index of the host packet after which the device says nothing
+        self.rechallenge_after_pubkey = rechallenge_after_pubkey  # AUTH(TOKEN) packets sent right after the public key arrived (adbd does this while the user has not confirmed)
 
 
 class SyncPlan(object):
@@ -389,6 +390,10 @@ class SimDevice(object):
             elif pkt.arg0 == wire.AUTH_RSAPUBLICKEY:
                 self.pubkey = pkt.payload
                 self.auth_log.append(("host_pubkey", pkt.payload))
+                for _ in range(self.auth.rechallenge_after_pubkey):
+                    self.token = bytes(self.rng.getrandbits(8) for _ in range(20))
+                    self.auth_log.append(("dev_rechallenge", self.token))
+                    self.conn.append(Item("AUTH", self.token, arg0=wire.AUTH_TOKEN, arg1=0))
                 if self.auth.accept_pubkey:
                     at = (self.clock.now() + self.auth.pubkey_delay) if (self.clock and self.auth.pubkey_delay) else None
                     self._send_cnxn(ready_at=at)
